@@ -133,9 +133,10 @@ def run_frame_unit(name, spec, tier):
             hits = [m for m in re.finditer(pat, masked) if not X._in_test_mod(masked, m.start())]
             if hits:
                 ln = src.count("\n", 0, hits[0].start()) + 1
-                res["failures"].append({"unit": name, "backend": "scan", "where": os.path.basename(f),
-                                        "kind": "frame condition", "desc": "construct that can share mutable state: /%s/" % pat,
-                                        "loc": "falcon-rust/src/%s:%d" % (os.path.basename(f), ln), "output": src.splitlines()[ln - 1], "cex": None})
+                # a syntactic hit refutes nothing (thread-local or synchronised state is compatible
+                # with the property): the frame condition is then simply not established
+                res["undecided"].append("frame condition not established syntactically: /%s/ at falcon-rust/src/%s:%d: %s"
+                                        % (pat, os.path.basename(f), ln, src.splitlines()[ln - 1].strip()[:120]))
             else:
                 res["discharged"] += 1
     res["wall_s"] = time.time() - t0
@@ -252,26 +253,71 @@ def check_property(prop, tier, seed):
             if m:
                 cex = {"argv": m.group(2).split(","), "found_by": "bounded directed search (%s)" % spec["search"],
                        "what": m.group(1)}
-                if need:
+                mo = re.match(r"\[only:([\w,]+)\]", m.group(1))
+                wonly = mo.group(1).split(",") if mo else None
+                if need and (wonly is None or need[0].get("only") is None or set(wonly) & set(need[0]["only"])):
                     need[0]["cex"] = cex
+                elif need:
+                    pass
                 else:
                     r["failures"].append({
                         "unit": r["unit"], "backend": "bounded-search", "where": spec["search"],
                         "kind": "bounded directed search (stand-in: the deductive check of this unit was UNDECIDED)",
                         "desc": "real code disagrees with the reference specification: " + m.group(1),
                         "loc": "", "output": "UNDECIDED reasons: " + " ; ".join(r["undecided"]) + "\n" + out[-1500:],
-                        "cex": cex})
-                    r["undecided_resolved_by_search"] = list(r["undecided"])
-                    r["undecided"] = []
+                        "cex": cex, "only": wonly})
+                    if wonly is None or prop in wonly:
+                        r["undecided_resolved_by_search"] = list(r["undecided"])
+                        r["undecided"] = []
+
+    # Thorough tier only: cross-checks that are NOT the deciding step.  (a) each unit's directed
+    # search is run proactively with further seeds: the real code against the executable reference
+    # of the specification's algorithm — guards against a contract that is wrong in the same way as
+    # the code; (b) the dependency models the Verus units assume (bit_vec::BitVec, itertools chunks,
+    # div_mod_floor, ilog2) are compared with the real crates.  A disagreement is reported with its
+    # concrete input; finding nothing proves nothing and is counted as nothing.
+    cross = []
+    if tier == "thorough":
+        for r in results:
+            spec = U.UNITS[r["unit"]]
+            if "search" in spec and not r["failures"] and not r["undecided"]:
+                for sd in (seed + 1, seed + 2, seed + 3):
+                    rc, out = run_replay([spec["search"], str(sd)], timeout=900)
+                    m = re.search(r"WITNESS (.*?) \| argv=(\S+)", out)
+                    cross.append({"unit": r["unit"], "cmd": "%s %d" % (spec["search"], sd), "kind": "bounded directed search against the reference algorithm",
+                                  "result": "WITNESS" if m else out.strip()[-200:]})
+                    if m:
+                        r["failures"].append({
+                            "unit": r["unit"], "backend": "bounded-search", "where": spec["search"],
+                            "kind": "bounded directed search (cross-check of the thorough tier)",
+                            "desc": "real code disagrees with the reference specification: " + m.group(1),
+                            "loc": "", "output": out[-1500:],
+                            "only": (lambda mo: mo.group(1).split(",") if mo else None)(re.match(r"\[only:([\w,]+)\]", m.group(1))),
+                            "cex": {"argv": m.group(2).split(","), "found_by": "bounded directed search (%s)" % spec["search"], "what": m.group(1)}})
+                        break
+            for mc in spec.get("models", []):
+                for sd in (seed + 1, seed + 2):
+                    rc, out = run_replay([mc, str(sd)], timeout=900)
+                    ok = rc == 0 and "MODEL-OK" in out
+                    cross.append({"unit": r["unit"], "cmd": "%s %d" % (mc, sd), "kind": "dependency model against the real crate",
+                                  "result": out.strip()[-200:]})
+                    if not ok:
+                        r["undecided"].append("dependency model cross-check %s did not pass: %s" % (mc, out.strip()[-300:]))
+                        break
 
     known = load_known()
     os.makedirs(REPLAY_DIR, exist_ok=True)
-    violations, known_seen, undecided = [], [], []
+    violations, known_seen, undecided, elsewhere = [], [], [], []
+    elsewhere_fns = set()
     n = 0
     known_count = 0
     for r in results:
         undecided += ["%s: %s" % (r["unit"], x) for x in r["undecided"]]
         for f in r["failures"]:
+            if f.get("only") and prop not in f["only"]:
+                elsewhere.append("%s: %s (stated for %s only)" % (r["unit"], f["desc"][:300], ",".join(f["only"])))
+                elsewhere_fns.add((r["unit"], f["where"]))
+                continue
             k = match_known(known, prop, f)
             if k:
                 known_count += 1
@@ -330,6 +376,8 @@ def check_property(prop, tier, seed):
             "undecided_clauses": P.get("undecided_clauses", []),
             "known_findings_seen": known_seen,
             "undecided_this_run": undecided,
+            "cross_checks": cross,
+            "failures_attributed_to_other_properties": elsewhere,
             "exhaustive": False,
         },
         "assumptions": sorted(set(P.get("assumptions", []) +
@@ -349,9 +397,12 @@ def check_property(prop, tier, seed):
         for u in undecided:
             print("UNDECIDED property=%s reason=%s" % (prop, u[:600]))
         return 2
+    # a failed clause stated for another property is no violation of this one, but the rest of that
+    # function was then checked under the failed clause as an assumption: not a pass either (exit 2)
     if obligations == 0 or (obligations != discharged and known_count == 0):
-        print("UNDECIDED property=%s reason=obligation count %d, discharged %d" % (
-            prop, obligations, discharged))
+        print("UNDECIDED property=%s reason=obligation count %d, discharged %d%s" % (
+            prop, obligations, discharged,
+            (" (failed obligations stated for other properties only: %s)" % " | ".join(elsewhere)[:500]) if elsewhere else ""))
         return 2
     print("OK property=%s tier=%s obligations=%d discharged=%d wall=%.1fs" % (
         prop, tier, obligations, discharged, time.time() - t0))
